@@ -766,3 +766,39 @@ Example errors_example :
   parse_dialect fo_demo graph_base_dialect (S "A;foo=bar;q=abc") = Err EType /\
   parse_dialect fo_demo fragment_node_dialect (S "abc") = Err EType.
 Proof. repeat split; vm_compute; reflexivity. Qed.
+
+(** ** dictionaries built by aset/aupdate have distinct keys *)
+Lemma aset_keys k v a x : In x (map fst (aset k v a)) -> x = k \/ In x (map fst a).
+Proof.
+  induction a as [|[k' v'] r IH]; cbn; intros H; [destruct H as [<-|[]]; now left|].
+  destruct (str_eqb k k'); cbn in H; [right; exact H|]. destruct H as [<-|H]; [right; now left|].
+  destruct (IH H); [now left|right; now right].
+Qed.
+Lemma aset_nodup k v a : NoDup (map fst a) -> NoDup (map fst (aset k v a)).
+Proof.
+  induction a as [|[k' v'] r IH]; cbn; intros ND; [repeat constructor; intros []|].
+  inversion ND as [|? ? Hn Hr]; subst. destruct (str_eqb_spec k k') as [->|N]; cbn; [now constructor|].
+  constructor; [|now apply IH]. intros HI. apply aset_keys in HI. destruct HI as [->|HI]; [congruence|contradiction].
+Qed.
+Lemma aupdate_nodup b : forall a, NoDup (map fst a) -> NoDup (map fst (aupdate a b)).
+Proof.
+  unfold aupdate. induction b as [|[k v] r IH]; intros a ND; cbn; [assumption|]. apply IH. now apply aset_nodup.
+Qed.
+Lemma finish_nodup dl vals rest : NoDup (map fst (finish dl vals rest)).
+Proof. unfold finish. apply aupdate_nodup, aupdate_nodup. constructor. Qed.
+(** every dictionary the dialect parser returns has distinct keys *)
+Lemma parse_nodup fo dl s a : parse_dialect fo dl s = Ok a -> NoDup (map fst a).
+Proof.
+  unfold parse_dialect. destruct (split_annotation s) as [[args kws]|]; cbn; [|discriminate].
+  intros H. apply bind_cast_inv in H. destruct H as (bound & rest & vals & _ & _ & ->). apply finish_nodup.
+Qed.
+(** `d = {}; d.update(a)` is [a] as a finite map *)
+Lemma aupdate_nil_equiv a : NoDup (map fst a) -> attrs_equiv (aupdate [] a) a.
+Proof. intros ND k. rewrite aget_aupdate. rewrite assoc_rev by assumption. rewrite (aget_assoc k a). cbn. now destruct (assoc k a). Qed.
+Lemma aget_aupdate_in old a k v : NoDup (map fst a) -> In (k, v) a -> aget k (aupdate old a) = Some v.
+Proof. intros ND HI. rewrite aget_aupdate, assoc_rev by assumption. now rewrite (assoc_in k v a ND HI). Qed.
+Lemma aget_aupdate_notin old a k : ~ In k (map fst a) -> aget k (aupdate old a) = aget k old.
+Proof.
+  intros HI. rewrite aget_aupdate. rewrite assoc_notin; [reflexivity|]. rewrite map_rev. intros H. apply in_rev in H. contradiction.
+Qed.
+
